@@ -130,8 +130,8 @@ fn run_set<S: PS>(ctx: &Ctx) -> Acc {
             }
         }
         // hostile accepted encodings: derived pk must be the FIPS function of (rho, s1, s2)
-        let sp = *g.pick(&[SPat::AllMinus, SPat::AllPlus, SPat::Alternating, SPat::Zero, SPat::Random]);
-        let tp = *g.pick(&[T0Pat::AllTop, T0Pat::AllBottom, T0Pat::RandomExtremes, T0Pat::Random]);
+        let sp = *g.pick(&[SPat::AllMinus, SPat::AllPlus, SPat::Alternating, SPat::Zero, SPat::Random, SPat::NttSparse]);
+        let tp = *g.pick(&[T0Pat::AllTop, T0Pat::AllBottom, T0Pat::RandomExtremes, T0Pat::Random, T0Pat::NttSparse]);
         let hsk = gen::hostile_sk(&mut g, p, sp, tp);
         acc.eval();
         let want = r::pk_from_sk(p, &hsk);
